@@ -36,6 +36,71 @@ def build(fab, depth, fail, value):
     return vm, e1, e2, e3
 
 
+def make_collect_harness(prog, depth, fail, nfail):
+    """memory clause: a failing evaluation that starts on a heap at >= 75% utilisation full of unreachable cells ends with those
+    cells reclaimed (the error arm collects as the success arm does), however often it is repeated"""
+    fab = Fab(prog)
+    RUN_COUNT = prog.resolve_crate('Vm::run_count')
+    G = 40
+
+    def harness(it):
+        f = fab
+        it.ghost['shape'] = (depth, fail, nfail)
+        P, e1, sym = vmstep.prog_nested(f, depth, fail, 1)
+        n = len(P.cells)
+        cap = ((n + G) * 5 // 4 + 3) // 4 * 4           # utilisation 0.8
+        vm = P.vm(e1, cap, garbage=G)
+        # slot 1 keeps the program reachable across collections (a real session re-creates the entry code per evaluation)
+        f.set_field(vm, 'Vm', 'globenv', f.globenv({sym: 0}, [f.vc('Undefined'), f.ptr(e1)]))
+        rng = getattr(P, 'target_range', None)
+        if rng:
+            t = z3.BitVec('target', 64)
+            it.assume(z3.And(z3.UGE(t, rng[0]), z3.ULE(t, rng[1])))
+        vb = Cell(vm)
+        for k in range(nfail):
+            set_ip(f, vb.v, e1)
+            r = vmstep.result_cell(it, it.call(RUN_COUNT, [Ref(vb), USIZE_MAX]))
+            if r[0] != 'err':
+                if fail == 'symbolic-target': raise Infeasible()
+                return cviol(it, 'the failing program did not fail', 'harness', n, cap)
+        heap = f.field(vb.v, 'Vm', 'heap')
+        left = []
+        for i in range(n, n + G):
+            st = f.gc_state(heap, i)
+            if is_sym(st):
+                if not it.must(st == 0): left.append(i)
+            elif st != 0: left.append(i)
+        if left:
+            return cviol(it, 'after %d failed evaluation(s) %d of %d unreachable cells are still allocated (no collection on the error path)' % (nfail, len(left), G), 'failure-not-collected', n, cap)
+        it.ghost['sample'] = {'depth': depth, 'error': fail, 'failures': nfail, 'garbage_cells': G, 'reclaimed': G}
+        return None
+
+    def cviol(it, what, key, n, cap):
+        m = it.witness()
+        t = m.eval(z3.BitVec('target', 64), model_completion=True).as_long() if m is not None else 0
+        return {'what': what, 'key': key, 'request': {'cmd': 'c07collect', 'depth': depth, 'fail': fail, 'nfail': nfail, 'target': t, 'garbage': G, 'cells': n, 'cap': cap}}
+    return harness
+
+
+def native_collect(prog, replay, req):
+    fab = Fab(prog)
+    P, e1, sym = vmstep.prog_nested(fab, req['depth'], req['fail'], 1)
+    vm = P.vm(e1, req['cap'], garbage=req['garbage'])
+    fab.set_field(vm, 'Vm', 'globenv', fab.globenv({sym: 0}, [fab.vc('Undefined'), fab.ptr(e1)]))
+    class M:
+        def eval(self, t, model_completion=True):
+            import z3 as _z
+            return _z.BitVecVal(req.get('target', 0), 64)
+    text = vmfab.show_vm(fab, vm, M())
+    out = replay.ask('script %s %s used' % (hexs(text), ' '.join(['setip:%d:0 run:0' % e1] * req['nfail'])))
+    if out.startswith(('PANIC', 'ABORT')): return True, 'sequence panics natively: ' + out[:200]
+    toks = out.split()
+    used = [x for x in toks if x.startswith('USED:')]
+    if not used: return None, 'native replay failed: %s' % out[:200]
+    u = int(used[0][5:])
+    return u >= req['cells'] + req['garbage'], 'after %d failing evaluation(s) on a heap of %d cells holding %d unreachable ones: %d cells in use (live program: %d)' % (req['nfail'], req['cap'], req['garbage'], u, req['cells'])
+
+
 def regs(f, vm):
     return (f.field(f.field(vm, 'Vm', 'stack'), 'Stack', 'sp'), f.field(vm, 'Vm', 'bp'), f.field(vm, 'Vm', 'ep'))
 
@@ -164,6 +229,23 @@ def run(chk, ws, prog, tier, replays):
                     if b1 is None and b2 is None:
                         chk.inconclusive.append('%s: %s' % (name, d1)); continue
                     chk.violation(v['key'], (d1 if b1 else d2) + ' | ' + v['what'], v['request'], bool(b1) or bool(b2))
+    for depth in (0, 2):
+        for fail in FAILS:
+            for nfail in (1, 3):
+                name = 'failed-evaluation-collects/depth=%d/%s/failures=%d' % (depth, fail, nfail)
+                res = explore(prog, make_collect_harness(prog, depth, fail, nfail), opts={'on_panic': on_panic, 'render_fmt': False}, quiet=True)
+                print('  harness %-58s %s' % (name, res.summary()), flush=True)
+                chk.add_result(name, res, FUNCTIONS + ['vm::run::Vm::run_gc', 'vm::heap::Heap::{mark,sweep,free}'], {'call_depth': depth, 'error_source': fail, 'consecutive_failures': nfail, 'unreachable_cells': 40, 'utilisation': 0.8}, nontrivial=res.completed)
+                for v in res.violations:
+                    if seen.get(v['key'], 0) >= 3: continue
+                    seen[v['key']] = seen.get(v['key'], 0) + 1
+                    if v['request'].get('cmd') != 'c07collect':
+                        chk.inconclusive.append('%s: %s' % (name, v['what'])); continue
+                    b1, d1 = native_collect(prog, dev, v['request'])
+                    b2, d2 = native_collect(prog, rel, v['request'])
+                    if b1 is None and b2 is None:
+                        chk.inconclusive.append('%s: %s' % (name, d1)); continue
+                    chk.violation(v['key'], (d1 if b1 else d2) + ' | ' + v['what'], v['request'], bool(b1) or bool(b2))
     chk.extra['rule'] = ('evaluations = solver queries + MIR steps are reported per harness; distinct_nontrivial = completed paths (one per shape: call depth x error source x '
                          'number of failures; the data operand is symbolic). The shapes are enumerated, the run loop is executed from MIR.')
     chk.assumptions += ['read / compile errors touch no VM state before run (argued from prepare_eval); heap and global effects are "completed effects" by definition',
@@ -175,6 +257,7 @@ def replay_request(req, replays):
     from vlib import core
     prog = core.load_program(core.Workspace())
     models_vm.install(prog)
-    b1, d1 = native_verdict(prog, replays[0], req)
-    b2, d2 = native_verdict(prog, replays[1], req)
+    nv = native_collect if req.get('cmd') == 'c07collect' else native_verdict
+    b1, d1 = nv(prog, replays[0], req)
+    b2, d2 = nv(prog, replays[1], req)
     return bool(b1) or bool(b2), d1 if b1 else d2
